@@ -22,7 +22,7 @@ client: scripted fake server sends k in 0..32 `continues` replies with arbitrary
 an error (standard or custom), then serves further calls; more() must yield exactly those k values, then the \
 final outcome, then end; both connection slots are back and the next call gets its own reply. Client streams also contain error replies carrying continues:true (yielded as error items, the stream goes on). Non-trivial: \
 server script contains a reply while continues is set and the request has no `more`; client stream ends in an \
-error, has k = 0, or is followed by another call; distinct by (script, flags) / (k, final, follow-up).";
+error, has k = 0, or is followed by another call; distinct by (script, flags) / (k, final, follow-up). The end of a stream is also taken while another thread holds a read guard on the shared connection (k in {0,1,3} x final result / error): once that thread has let go the connection must be free.";
 
 #[derive(Clone, Debug, PartialEq)]
 pub enum Act {
@@ -534,6 +534,58 @@ pub fn run_client(c: &ClientCase) -> Result<(), Fail> {
     Ok(())
 }
 
+/// The end of a stream while another thread looks at the shared connection (it holds a read guard on the
+/// `Arc<RwLock<Connection>>` for `hold_ms`): the iteration still ends after the final reply, and once the
+/// other thread has let go the connection is free for the next call.
+pub fn run_client_contended(k: usize, fin_err: bool, hold_ms: u64) -> Result<(), Fail> {
+    let mut fake = Fake::new();
+    let mut wire: Vec<Value> = (0..k).map(|i| json!({"continues": true, "parameters": {"i": i}})).collect();
+    let fin = if fin_err { json!({"error": "org.x.Broken", "parameters": {"i": k}}) } else { json!({"parameters": {"i": k}}) };
+    wire.push(fin.clone());
+    fake.push_replies(&wire);
+    let mut call = vcall(&fake.conn, "org.x.Stream", json!({"token": "s"}));
+    let it = match call.more() {
+        Ok(it) => it,
+        Err(e) => return Err(Fail::new("client-more/send-failed", format!("more() failed: {:?}", e.kind()))),
+    };
+    for i in 0..k {
+        match it.next() {
+            Some(Ok(v)) if v["i"] == json!(i) => {}
+            other => return Err(Fail::new("client-more/wrong-item", format!("item {} is {:?}", i, other.map(|r| r.map_err(|e| e.kind().clone()))))),
+        }
+    }
+    let conn = fake.conn.clone();
+    let (tx, rx) = std::sync::mpsc::channel::<()>();
+    let holder = std::thread::spawn(move || {
+        let guard = conn.read().unwrap();
+        let _ = tx.send(());
+        std::thread::sleep(std::time::Duration::from_millis(hold_ms));
+        drop(guard);
+    });
+    let _ = rx.recv();
+    let last = it.next();
+    let end = it.next();
+    let _ = holder.join();
+    match last {
+        Some(r) => check_outcome("client-more/final", &expected_outcome(&fin), &r)?,
+        None => return Err(Fail::new("client-more/ended-early", "the iterator ended before the final reply")),
+    }
+    if end.is_some() {
+        return Err(Fail::new("client-more/item-after-final", "the iterator yielded another item after the final reply"));
+    }
+    // one more poll of the finished iterator is harmless and must not be needed
+    if !fake.slots_present() {
+        return Err(Fail::new(
+            "client-more/slots-not-returned",
+            format!("another thread held a read guard on the connection for {} ms while the final reply was consumed; it has let go, the iteration is over, yet the connection's reader/writer are not back", hold_ms),
+        ));
+    }
+    let f = json!({"parameters": {"after": k}});
+    fake.push_replies(std::slice::from_ref(&f));
+    let r = vcall(&fake.conn, "org.x.Next", json!({"j": 0})).call();
+    check_outcome("client-more/follow-up", &expected_outcome(&f), &r)
+}
+
 /// Like run_client, with the scripted replies written by a thread (they do not fit a socket buffer).
 pub fn run_client_big(c: &ClientCase) -> Result<(), Fail> {
     use std::io::Write;
@@ -618,6 +670,16 @@ fn client_half(ctx: &mut Ctx) {
             ctx.violation(&f.key, &f.what, "c05-client", json!({"long_stream_replies": k, "blob_bytes": size}));
         }
     }
+    // the end of a stream while another thread holds a read guard on the shared connection
+    for k in [0usize, 1, 3] {
+        for fin_err in [false, true] {
+            ctx.case(Some(hash64(&("contended", k, fin_err))));
+            ctx.class("client:stream-ends-while-another-thread-holds-a-read-guard");
+            if let Err(f) = pt::guard(|| run_client_contended(k, fin_err, 40)) {
+                ctx.violation(&f.key, &f.what, "c05-client", json!({"contended": {"continues": k, "final_is_error": fin_err, "hold_ms": 40}}));
+            }
+        }
+    }
     let strat = (
         prop::collection::vec(json_value(2), 0..=32),
         prop::collection::vec(any::<prop::sample::Index>(), 0..3),
@@ -655,6 +717,8 @@ fn replay(ctx: &mut Ctx, v: &Value) {
         } else {
             run_script_spelled(&script, cj["more"].as_bool().unwrap_or(false), cj["oneway"].as_bool().unwrap_or(false), cj["unset_flags_spelled_false"].as_bool().unwrap_or(false))
         }
+    } else if let Some(c) = cj.get("contended") {
+        run_client_contended(c["continues"].as_u64().unwrap_or(0) as usize, c["final_is_error"].as_bool().unwrap_or(false), c["hold_ms"].as_u64().unwrap_or(40))
     } else {
         let arr = |x: &Value| x.as_array().cloned().unwrap_or_default();
         run_client(&ClientCase {
